@@ -544,6 +544,38 @@ def h_query_layout(ctx):
                     ctx.claim("query presented as %s predicts, position by position, what the C-ordered arrays predict" % label, And([True if both_nan(u, v) else eq(u, v) for u, v in zip(np.asarray(g).ravel(), np.asarray(r).ravel())]))
 
 
+def _cv_globals(cfg):
+    g = dict(_globals(cfg))
+    g.update(stubs.scoring_globals())
+    return g
+
+
+def h_cross_val_layout(ctx):
+    """model selection sees the same samples whatever the shape of the arrays: cross_val_score on 2x2 (C, Fortran,
+    transposed) inputs and pandas Series gives, split by split, the scores of the raveled 1-D inputs"""
+    from sklearn.model_selection import KFold
+    from symx import gridders
+    from symx.gridders import UFGridder
+
+    e4, n4 = ctx.reals("e", 4), ctx.reals("n", 4)
+    d4, w4 = ctx.reals("d", 4), ctx.reals("w", 4)
+    for v in w4:
+        ctx.assume(v > 0)
+    forms = {k: _presentations(v, ctx) for k, v in (("e", list(e4)), ("n", list(n4)), ("d", list(d4)), ("w", list(w4)))}
+    scores = {}
+    for pres in forms["e"]:
+        gridders.reset()
+        with warnings.catch_warnings():
+            warnings.simplefilter("ignore")
+            sc = vd.cross_val_score(UFGridder(ident=4), (forms["e"][pres], forms["n"][pres]), forms["d"][pres], weights=forms["w"][pres], cv=KFold(n_splits=2), scoring="neg_mean_squared_error")
+        scores[pres] = list(np.ravel(sc))
+    base = scores["1d"]
+    for pres, sc in scores.items():
+        ctx.claim("cross_val_score returns one score per split for every presentation", len(sc) == 2)
+        if pres != "1d" and len(sc) == len(base):
+            ctx.claim("cross-validation scores do not depend on the presentation of the arrays (1-D, 2x2 C, 2x2 Fortran, strided view, pandas Series)", And([eq(a, b) for a, b in zip(sc, base)]))
+
+
 def _cfg_layout(tier, seed):
     return [{"kind": k, "extra": x} for k in ("trend", "spline", "vector", "kneighbors", "linear") for x in ((False, True) if tier == "thorough" or k in ("trend", "linear") else (True,))]
 
@@ -556,6 +588,7 @@ HARNESSES = [
     Harness("layout", h_layout, _cfg_layout, bounds="4 symbolic elements per array presented as 1-D, 2x2 C-order, 2x2 Fortran-order, strided view of a longer array, pandas Series, with/without an ignored extra coordinate; query arrays of shape (1,3) and scalars; Trend with symbolic coordinates, the others on a concrete 4-point layout", stubs=["least_squares -> recorder with fixed result symbols", "cKDTree / scipy interpolators -> contract stubs"], extra_globals=_globals, engine={"oneshot": True}),
     Harness("broadcast_query", h_broadcast, lambda tier, seed: [{"kind": k} for k in ("trend", "spline", "vector", "kneighbors", "linear")], bounds="concrete 4-point layout, symbolic data; query pairs (1,3)x(2,1), scalar x (2,1), (3,) x scalar against the same queries expanded to equal shapes", stubs=["sklearn / cKDTree / scipy interpolators -> contract stubs"], extra_globals=_globals, engine={"oneshot": True}),
     Harness("query_layout", h_query_layout, lambda tier, seed: [{"kind": k} for k in ("trend", "spline", "vector", "kneighbors", "linear", "cubic", "chain", "vector_of")], bounds="every gridder class plus a Chain and a Vector fitted on the concrete 4-point layout with symbolic data; one 2x2 query in C order against Fortran order, transposed view, strided view, pandas Series and Python lists", stubs=["sklearn / cKDTree / scipy interpolators -> contract stubs"], extra_globals=_globals, engine={"oneshot": True}),
+    Harness("cross_val_layout", h_cross_val_layout, {"quick": [{}]}, bounds="4 symbolic samples (coordinates, data, positive weights) in five presentations through cross_val_score with KFold(2) and a recording gridder", stubs=["scorer -> closed-form MSE (symbolic run)"], extra_globals=_cv_globals, engine={"oneshot": True}),
     Harness("permutation", h_permutation, _cfg_perm, bounds="concrete 4-point layout, symbolic data; 3 permutations (quick) / all 23 (thorough); Spline, VectorSpline2D, Trend, KNeighbors(mean, k=2/3, symbolic query in general position), Linear (pairing only)", stubs=["sklearn -> contracts", "cKDTree / interpolators -> contract stubs"], extra_globals=_globals, engine={"oneshot": True}, timeout_s=900),
     Harness("linearity", h_linearity, lambda tier, seed: [{"kind": k} for k in ("spline", "trend", "kneighbors", "vector")], bounds="concrete 4-point layout; symbolic scalars a, b and data vectors (written as J g + residual so that every data vector is covered)", stubs=["sklearn -> contracts", "cKDTree -> contract stub"], extra_globals=_globals, engine={"oneshot": True, "timeout_ms": 120000}, outside="Cubic (not linear); Linear's linearity is scipy's (OUT-LIB)", timeout_s=900),
     Harness("integer_dtype", h_dtype, lambda tier, seed: [{"kind": k, "npts": 3 if (tier == "thorough" or not k.endswith("e_predict") and k != "vector_predict") else 2} for k in ("trend_predict", "trend_fit", "spline_predict", "vector_predict", "kneighbors", "spline_fit", "vector_fit", "linear_fit")], bounds="3 points with symbolic integer coordinates/data in -50..50 carried by a modelled int64 dtype versus the same values as float64; symbolic parameters; fits with concrete int64 coordinates and weights and symbolic integer data", stubs=["numpy dtype/casting model for np.empty/np.zeros(dtype=<input>.dtype) buffers (OUT-DTYPE)"], extra_globals=_globals, engine={"oneshot": True, "keyed_sqrt": True}),
